@@ -350,6 +350,20 @@ def gen_task(rng, tier, focus):
     struct, lengths = gen_structure(rng, tier, focus)
     task = {'structure': struct, 'argv': gen_argv(rng, tier, focus, lengths), 'cwd_pre': gen_cwd_pre(rng),
             'rng_seed': rng.randrange(1 << 30), 'inject': gen_inject(rng, focus)}
+    if focus in ('C03', 'C11') and rng.random() < 0.07:
+        # several merge groups whose members are copies of each other, listed in different chain order
+        source = struct['source']
+        nres = len(structure.load_source(source))
+        la, lb = rng.randint(2, 4), rng.randint(2, 4)
+        sa, sb = rng.randrange(0, max(1, nres - la)), rng.randrange(0, max(1, nres - lb))
+        ids = rng.sample('ABCDEF', 4)
+        struct = {'source': source, 'ops': [['chain', sa, la, ids[0], 0.0], ['chain', sb, lb, ids[1], 45.0],
+                                            ['copy', 0, ids[2], 90.0, rng.randrange(1 << 20), 0.0],
+                                            ['copy', 1, ids[3], 90.0, rng.randrange(1 << 20), 0.0]]}
+        task['structure'] = struct
+        groups = split_argv(task['argv'])
+        argv = [a for g in groups if g[0] not in ('-merge', '-sep', '-go', '-ss') for a in g]
+        task['argv'] = argv + ['-merge', '%s,%s' % (ids[0], ids[1]), '-merge', '%s,%s' % (ids[2], ids[3])]
     if focus == 'C17':
         r = rng.random()
         argv = task['argv']
